@@ -1381,11 +1381,16 @@ func (seq *Sequence) Release() error {
 }
 
 func (seq *Sequence) updateLease() error {
-	return seq.db.Update(func(txn *Txn) error {
+	// The sequence must only change once the lease has been committed: if the
+	// transaction fails (for example with ErrConflict because another Sequence
+	// for the same key renewed its lease concurrently), the numbers read here
+	// belong to somebody else.
+	var next, lease uint64
+	err := seq.db.Update(func(txn *Txn) error {
 		item, err := txn.Get(seq.key)
 		switch {
 		case err == ErrKeyNotFound:
-			seq.next = 0
+			next = 0
 		case err != nil:
 			return err
 		default:
@@ -1396,18 +1401,19 @@ func (seq *Sequence) updateLease() error {
 			}); err != nil {
 				return err
 			}
-			seq.next = num
+			next = num
 		}
 
-		lease := seq.next + seq.bandwidth
+		lease = next + seq.bandwidth
 		var buf [8]byte
 		binary.BigEndian.PutUint64(buf[:], lease)
-		if err = txn.SetEntry(NewEntry(seq.key, buf[:])); err != nil {
-			return err
-		}
-		seq.leased = lease
-		return nil
+		return txn.SetEntry(NewEntry(seq.key, buf[:]))
 	})
+	if err != nil {
+		return err
+	}
+	seq.next, seq.leased = next, lease
+	return nil
 }
 
 // GetSequence would initiate a new sequence object, generating it from the stored lease, if
